@@ -65,6 +65,9 @@ COND_FIELDS = {'body_invweight0', 'dof_invweight0', 'tendon_invweight0', 'actuat
                'body_iquat'}     # body_iquat: eigenvectors of the inertia tensor, conditioned by the eigenvalue gaps
 COND_RTOL = 1e-8
 _worst_cond = [0.0]
+_worst_mesh = [0.0, 0]
+# arrays that can depend on mesh geometry (fitted/mesh geom frames and sizes, mass properties and what follows from them)
+MESH_DERIVED = ('geom_', 'mesh_', 'body_', 'dof_', 'stat.', 'tendon_', 'actuator_acc0', 'qpos0', 'qpos_spring', 'key_')
 
 
 def compare17(lib, m1, m2, **kw):
@@ -83,6 +86,15 @@ def compare17(lib, m1, m2, **kw):
         _worst_cond[0] = max(_worst_cond[0], w)
         continue
     out.append(d)
+  # mesh vertices/normals are stored and saved as 32-bit floats: quantities derived from a mesh that was first processed
+  # in double precision (file or inline input) reproduce only to float32 accuracy.  Applied on every route (spec save,
+  # second trip, repairs, mj_saveLastXML) and for generated as well as corpus models.
+  if out and (m1.nmesh or m2.nmesh):
+    small = [d for d in out if d.kind == 'float' and d.err < MESH_F32_TOL and d.field.startswith(MESH_DERIVED)]
+    if small:
+      _worst_mesh[0] = max(_worst_mesh[0], max(d.err for d in small))
+      _worst_mesh[1] += 1
+      out = [d for d in out if d not in small]
   return out
 
 
@@ -608,7 +620,9 @@ def main(ck):
   ck.extra['rtol_default_precision'] = RTOL6
   ck.extra['worst_conditioned_error'] = _worst_cond[0]
   ck.extra['conditioned_rtol'] = COND_RTOL
-  ck.extra['worst_mesh_float32_error'] = getattr(c, 'worst_meshf32', 0.0)
+  ck.extra['worst_mesh_float32_error'] = max(getattr(c, 'worst_meshf32', 0.0), _worst_mesh[0])
+  ck.extra['mesh_float32_tolerance_applied'] = _worst_mesh[1]
+  ck.extra['mesh_float32_tolerance'] = MESH_F32_TOL
   ck.extra['upstream_acknowledged_patterns'] = c.upstream_fail
 
 
